@@ -6,11 +6,13 @@
     ancestor is reachable by parent steps, `false` only if it is not (C16 proves the twin facts for the visited-set search
     `descVisFuel` of `isEntityDescendant`: `descVisFuel_sound` / `descVisFuel_complete`).
   * `anyEntityDescendantOf_false`: the answer `false` means that no element of the left LUB equals, or reaches in the
-    schema's entity-type hierarchy, an element of the right LUB.
+    schema's entity-type hierarchy, an element of the right LUB, and that no pair of them are both ACTION entity types
+    (repair of `in-action-type-cross-namespace`: an action may be below an action group of any action entity type).
   * `reach_types` — **in a conforming store, reachability between entities implies descendant-ness of their types**:
-    `Reach es x y → type x = type y ∨ type x reaches type y through ParentTypes`.  What store conformance must say for
-    it is exactly `EntityOK.parents`: the entity type of every parent of a PRESENT entity is one of the `ParentTypes`
-    of the child's type (for an action entity, whose type has no declaration: the action's own type).
+    from an ACTION entity only action entities are reachable; from a non-action entity only non-action entities, and
+    then `type x = type y ∨ type x reaches type y through ParentTypes`.  What store conformance must say for
+    it is exactly `EntityOK.parents`: every parent of a PRESENT non-action entity is a non-action entity whose type is
+    one of the `ParentTypes` of the child's type; every parent of a present action entity is an action entity.
   * `ActionsOK` — the explicit hypothesis for the ACTION folding (finding `action-entity-absent-from-store`): the
     environment's action is a schema action, every schema action that has parents is present in the store with (at least)
     those parents, and a present schema action has only schema actions above it in the schema's hierarchy as parents.
@@ -155,28 +157,32 @@ theorem isEntityDescendant_false {c a : String} (h : isEntityDescendant Γ c a =
     exact descVisFuel_complete _ _ _ _ _ hd
 
 theorem anyDescInner_false {lt : String} : ∀ {rs : List String}, anyDescInner Γ lt rs = some false →
-    ∀ rt ∈ rs, lt ≠ rt ∧ ¬ Reaches (entityParentsOf Γ) lt rt
+    ∀ rt ∈ rs, lt ≠ rt ∧ ¬ (isActionEntity lt = true ∧ isActionEntity rt = true) ∧ ¬ Reaches (entityParentsOf Γ) lt rt
   | [], _ => by intro rt h; cases h
   | r :: rs, h => by
     simp only [anyDescInner] at h
     split at h
     · simp at h
     · rename_i hne
-      cases hd : isEntityDescendant Γ lt r with
-      | none => simp [hd] at h
-      | some b =>
-        cases b with
-        | true => simp [hd] at h
-        | false =>
-          simp only [hd] at h
-          intro rt hrt
-          rcases List.mem_cons.mp hrt with rfl | hrt
-          · exact ⟨by simpa using hne, isEntityDescendant_false hd⟩
-          · exact anyDescInner_false h rt hrt
+      split at h
+      · simp at h
+      · rename_i hact
+        cases hd : isEntityDescendant Γ lt r with
+        | none => simp [hd] at h
+        | some b =>
+          cases b with
+          | true => simp [hd] at h
+          | false =>
+            simp only [hd] at h
+            intro rt hrt
+            rcases List.mem_cons.mp hrt with rfl | hrt
+            · exact ⟨by simpa using hne, by simpa using hact, isEntityDescendant_false hd⟩
+            · exact anyDescInner_false h rt hrt
 
 /-- the answer `false` of `anyEntityDescendantOf`: no element of the left LUB is, or can be below, an element of the right one -/
 theorem anyEntityDescendantOf_false : ∀ {ls rs : List String}, anyEntityDescendantOf Γ ls rs = some false →
-    ∀ lt ∈ ls, ∀ rt ∈ rs, lt ≠ rt ∧ ¬ Reaches (entityParentsOf Γ) lt rt
+    ∀ lt ∈ ls, ∀ rt ∈ rs, lt ≠ rt ∧ ¬ (isActionEntity lt = true ∧ isActionEntity rt = true) ∧
+      ¬ Reaches (entityParentsOf Γ) lt rt
   | [], _, _ => by intro lt h; cases h
   | l :: ls, rs, h => by
     simp only [anyEntityDescendantOf] at h
@@ -192,17 +198,21 @@ theorem anyEntityDescendantOf_false : ∀ {ls rs : List String}, anyEntityDescen
         · exact anyDescInner_false hi rt hrt
         · exact anyEntityDescendantOf_false h lt hlt rt hrt
 
-/-- **Store reachability implies descendant-ness of the entity types** (what `EntityOK.parents` is for) -/
+/-- **Store reachability implies descendant-ness of the entity types** (what `EntityOK.parents` is for): an action entity
+    reaches action entities only (of whatever action entity type); a non-action entity reaches non-action entities only,
+    and their types are below its own in the schema's entity-type hierarchy -/
 theorem reach_types {env : Env} (hΓ : EnvOK Γ env) {x y : UID} (h : Reach env.entities x y) :
-    x.1 = y.1 ∨ Reaches (entityParentsOf Γ) x.1 y.1 := by
+    (isActionEntity x.1 = true → isActionEntity y.1 = true) ∧
+    (isActionEntity x.1 = false → isActionEntity y.1 = false ∧ (x.1 = y.1 ∨ Reaches (entityParentsOf Γ) x.1 y.1)) := by
   induction h with
-  | refl => exact .inl rfl
+  | refl => exact ⟨fun h => h, fun h => ⟨h, .inl rfl⟩⟩
   | @step a p b d hg hp _ ih =>
-    rcases (hΓ.store a d hg).parents p hp with hmem | ⟨_, hsame⟩
-    · rcases ih with heq | hr
-      · exact .inr (Reaches.step (heq ▸ hmem))
-      · exact .inr (Reaches.trans hmem hr)
-    · rw [← hsame]; exact ih
+    rcases (hΓ.store a d hg).parents p hp with ⟨ha, hpn, hmem⟩ | ⟨ha, hpa⟩
+    · refine ⟨fun h => (by rw [ha] at h; cases h), fun _ => ?_⟩
+      obtain ⟨hb, heq | hr⟩ := ih.2 hpn
+      · exact ⟨hb, .inr (Reaches.step (heq ▸ hmem))⟩
+      · exact ⟨hb, .inr (Reaches.trans hmem hr)⟩
+    · exact ⟨fun _ => ih.1 hpa, fun h => (by rw [ha] at h; cases h)⟩
 
 /-- the hypothesis under which the ACTION folding of `typeOfIn` is sound -/
 structure ActionsOK (Γ : TEnv) (env : Env) : Prop where
@@ -577,9 +587,13 @@ theorem sound_in (hΓ : EnvOK Γ env) (hA : ActionsOK Γ env) {l r : Expr} {caps
                 intro ty id w _ hm _ hw ⟨y, hy, hreach⟩
                 have hyt := (doIn_spec env (ty, id) hw hrt).2.2 rtys hlub y hy
                 have hno := anyEntityDescendantOf_false hany ty hm y.1 hyt
-                rcases reach_types hΓ hreach with heq | hr
-                · exact hno.1 heq
-                · exact hno.2 hr
+                have hrt := reach_types hΓ hreach
+                cases hact : isActionEntity ty with
+                | true => exact hno.2.1 ⟨hact, hrt.1 hact⟩
+                | false =>
+                  rcases (hrt.2 hact).2 with heq | hr
+                  · exact hno.1 heq
+                  · exact hno.2.2 hr
 
 theorem sound_isIn {e r : Expr} {ty : String} {caps caps' : Caps} {τ : Ty}
     (ihl : IH Γ env e) (ihr : IH Γ env r) (hc : CapsHold env caps)
